@@ -503,10 +503,13 @@ def run_check(P, argv):
 
     # 3: model runner --------------------------------------------------------
     model_ok = True
-    ok, out = ocaml_build(P.EXTRACT, P.MLMOD, P.RUNNER)
-    if not ok:
-        model_ok = False
-        problems.append(("extraction", "model extraction / runner build failed", out[-2000:]))
+    if getattr(P, "RUNNER", None) is None:
+        model_ok = False      # no executable model side for this check (stated in its evidence)
+    else:
+        ok, out = ocaml_build(P.EXTRACT, P.MLMOD, P.RUNNER)
+        if not ok:
+            model_ok = False
+            problems.append(("extraction", "model extraction / runner build failed", out[-2000:]))
     # 4: harness -------------------------------------------------------------
     profiles = ["debug"] + (["release"] if (tier == "thorough" or getattr(P, "RELEASE_ALWAYS", False)) else [])
     exes = {}
@@ -615,6 +618,10 @@ def run_check(P, argv):
     if violation:
         print("VIOLATION property=%s replay=%s%s" % (P.ID, violation[0], violation[1]), flush=True)
         return 1
+    try:
+        os.unlink(os.path.join(ROOT, "replays", "%s_violation.json" % P.ID))   # stale replay of an earlier run
+    except OSError:
+        pass
     ctx.say("[%s] OK: %d theorems closed, %d cases impl=model=spec, %.1fs" % (
         P.ID, discharged, len(cases), time.time() - ctx.t0))
     return 0
